@@ -317,6 +317,25 @@ def index_domains(fb, rep, rule='R11.5', suffix='clufactor_rational.hpp', what='
             rep.check(d == LU_REQ[b], rule, '%s#%d' % (base, seen[base]), '%s:%d' % (f.file, n.l), 'index is %s' % LU_WORD.get(d, d),
                       '%s is subscripted by %s, which is %s (read from an array of such), but %s is addressed by %s: a different entry is read or written whenever row and column '
                       'permutation differ' % (b, render(strip(ix))[:30], LU_WORD.get(d, 'an ' + d), b, LU_WORD.get(LU_REQ[b], 'an ' + LU_REQ[b])))
+    # comparisons between integers of known, different domains (a file offset compared with a row index bounds a loop by the wrong thing)
+    ncmp = 0
+    for f in sorted(fb.funcs.values(), key=lambda g: (g.file, g.line, g.name)):
+        if not f.file.endswith('/' + suffix) or not f.nodes:
+            continue
+        seen = {}
+        for n in f.nodes:
+            if n.k != 'BinaryOperator' or n.o not in ('<', '<=', '>', '>=', '==', '!=') or f.in_assert(n):
+                continue
+            a, b = strip(n.kids[0]), strip(n.kids[1])
+            da, db = lu_dom(f, a, n), lu_dom(f, b, n)
+            if da is None or db is None:
+                continue
+            ncmp += 1
+            base = '%s|cmp(%s %s %s)' % (f.short, render(a)[:14], n.o, render(b)[:14])
+            seen[base] = seen.get(base, 0) + 1
+            rep.check(da == db, rule, '%s#%d' % (base, seen[base]), '%s:%d' % (f.file, n.l), 'both are %s' % LU_WORD.get(da, 'an ' + da),
+                      '`%s` compares %s, which is %s, with %s, which is %s: a loop bounded this way runs over the wrong range' % (render(n)[:50], render(a)[:20], LU_WORD.get(da, 'an ' + da), render(b)[:20], LU_WORD.get(db, 'an ' + db)))
+    rep.extra.setdefault('comparisons_decided', {})[rule] = ncmp
     if ctl < 1:
         raise AnalysisBroken(rule + ' positive control (LuCtl) did not fire')
     rep.ok(rule, 'control|LuCtl::diag_by_column', 'units/controls.cpp', 'positive control fires', nontrivial=False)
